@@ -65,8 +65,11 @@ class MemSock:
         pass
 
 
-def _echo_class():
+def _echo_class(oneway=False):
+    """a NEW class object on every call, always with the same module and qualified name (as a class factory, a reloaded
+    module or a redefined local class gives).  oneway=True: the twin whose methods are all @oneway (their calls return None)."""
     from Pyro5 import server
+    mark = server.oneway if oneway else (lambda f: f)
 
     @server.expose
     class Echo(object):
@@ -74,12 +77,15 @@ def _echo_class():
             self.seen = None
             self.store = None
 
+        @mark
         def recv(self, *args, **kwargs):
             self.seen = (args, kwargs)
 
+        @mark
         def ret(self):
             return self.store
 
+        @mark
         def stream(self):
             for x in self.store:
                 yield x
@@ -91,13 +97,13 @@ class Rig:
     The daemon side runs in its own thread (own thread-local call context), strictly alternating
     with the client: it handles exactly one request each time the client waits for a reply."""
 
-    def __init__(self, ser):
+    def __init__(self, ser, oneway_twin=False):
         from Pyro5 import server, client
         self.ser = ser
         self.csock, self.ssock = MemSock("client"), MemSock("server")
         self.csock.peer, self.ssock.peer = self.ssock, self.csock
         self.daemon = server.Daemon(connected_socket=self.ssock)
-        self.echo = _echo_class()()
+        self.echo = _echo_class(oneway_twin)()
         self.daemon.register(self.echo, "echo")
         self.conn = self.daemon.transportServer.conn
         self.server_errors = []
@@ -128,14 +134,21 @@ class Rig:
         self.thread.join()
         self.csock.on_empty = None
         try:
-            self.proxy._pyroConnection = None
+            if self.proxy is not None:
+                self.proxy._pyroConnection = None
         except Exception:
             pass
 
 
 class Rigs:
+    """History of every set of rigs: first a daemon serves (and a proxy connects to) the all-@oneway twin of the Echo class —
+    another class with the same qualified name — and goes away; then the normal Echo classes are served.  What a call on
+    the normal object returns must not depend on that (or any) earlier class."""
+
     def __init__(self):
         self.rigs = {}
+        twin = Rig("serpent", oneway_twin=True)      # connecting fetches the twin's metadata
+        twin.close()
 
     def get(self, ser):
         r = self.rigs.get(ser)
@@ -165,15 +178,16 @@ def deliver(rigs, ser, pos, v, loose=False):
     e, p = rig.echo, rig.proxy
     e.seen, e.store = None, None
     try:
-        if pos == "arg":
-            p.recv(v)
-            got = e.seen[0][0]
-        elif pos == "kwarg":
-            p.recv(k=v)
-            got = e.seen[1]["k"]
-        elif pos == "nested-arg":
-            p.recv([v])
-            got = e.seen[0][0][0]
+        if pos in ("arg", "kwarg", "nested-arg"):
+            if pos == "arg":
+                p.recv(v)
+            elif pos == "kwarg":
+                p.recv(k=v)
+            else:
+                p.recv([v])
+            if e.seen is None:
+                raise LookupError("the proxy call returned before the server method had run (treated as a oneway call)")
+            got = e.seen[0][0] if pos == "arg" else (e.seen[1]["k"] if pos == "kwarg" else e.seen[0][0][0])
         elif pos == "result":
             e.store = v
             got = p.ret()
@@ -330,8 +344,8 @@ def _case(ser, tr, **kw):
     return d
 
 
-def check_value(ctx, ser, v, tr=None):
-    """serializer-level oracle for one value: lossless / symmetric / idempotent"""
+def check_value(ctx, ser, v, tr=None, cfg=None):
+    """serializer-level oracle for one value: lossless / symmetric / idempotent (cfg: the non-default Pyro5.config items in force)"""
     from Pyro5 import serializers
     from props import c01
     s = serializers.serializers[ser]
@@ -341,6 +355,8 @@ def check_value(ctx, ser, v, tr=None):
     kw, _ = c01.outcome(lambda: s.loadsCall(s.dumpsCall("o", "m", (), {"k": v}))[3]["k"], True)
     ctx.evaluations += 1
     case = _case(ser, tr) if not python_only else {"serializer": ser, "python_value": repr(v)}
+    if cfg:
+        case["config"] = cfg
     for name, got in (("positional", arg), ("keyword", kw)):
         if got != res:
             if ser == "msgpack" and res[0] == "ok" and _has_ext(res[1]) and not (got[0] == "ok" and _has_ext(got[1])):
@@ -398,6 +414,15 @@ def serializer_oracle(ctx):
         tr = V.tree(v)
         for ser in SERS:
             check_value(ctx, ser, v, tr)
+    # configurations: the same clauses under the non-default run-time setting of every config item the serializers read
+    # (SERPENT_BYTES_REPR: serpent then writes bytes as bytes literals instead of base64 dicts)
+    cfg = {"SERPENT_BYTES_REPR": True}
+    with _Config(**cfg):
+        extra = [b"", b"ab\xff", bytearray(b"xyz"), [b"a", {"k": bytearray(b"b")}], (b"\x00" * 120,), {"data": b"x", "encoding": "base64"}]
+        for v in extra + vals[:ctx.n(1200, 8000)]:
+            tr = V.tree(v)
+            if V.contains(tr, lambda t: t[0] in ("B", "Y")) or rng.random() < 0.15:
+                check_value(ctx, "serpent", v, tr, cfg)
     # Python-only stream: naive datetimes (msgpack sends a local-time float timestamp) — symmetry only
     for i in range(ctx.n(60, 2000)):
         dt = datetime.datetime(rng.randint(1971, 2200), rng.randint(1, 12), rng.randint(1, 28), rng.randint(0, 23),
@@ -418,11 +443,28 @@ def e2e_oracle(ctx):
                 for ser in SERS:
                     for v in vals + _sized_values(ser):
                         _e2e_check(ctx, rigs, ser, comp, v)
+            with _Config(COMPRESSION=comp, ITER_STREAMING=True, SERPENT_BYTES_REPR=True):
+                for v in [b"ab\xff", [bytearray(b"xyz"), {"k": b""}], b"\x01" * 130] + vals[:10]:
+                    _e2e_check(ctx, rigs, "serpent", comp, v, {"SERPENT_BYTES_REPR": True})
     finally:
         rigs.close()
+    _stream_histories(ctx)
 
 
-def _e2e_check(ctx, rigs, ser, comp, v):
+def _stream_histories(ctx):
+    rng = ctx.sub_rng("stream-holder-search" if ctx.search_mode else "stream-holder")
+    for comp in (False, True):
+        for ser in SERS:
+            for _ in range(ctx.n(2, 12)):
+                items = [V.gen_lossless(rng, rng.choice([0, 1, 2])) for _ in range(rng.choice([1, 3, 5]))]
+                for drop_after in (0, 1):
+                    if drop_after <= len(items):
+                        with _Config(COMPRESSION=comp, ITER_STREAMING=True):
+                            if not stream_without_proxy_holder(ctx, ser, comp, items, drop_after):
+                                return
+
+
+def _e2e_check(ctx, rigs, ser, comp, v, cfg=None):
     tr = V.tree(v)
     want = ("ok", V.norm(tr, True))
     lossless = V.is_lossless(tr)
@@ -431,7 +473,7 @@ def _e2e_check(ctx, rigs, ser, comp, v):
         out, _, exc = deliver(rigs, ser, pos, v, True)
         ctx.evaluations += 1
         obs[pos] = out
-        case = _case(ser, tr, position=pos, compression=comp)
+        case = _case(ser, tr, position=pos, compression=comp, **({"config": cfg} if cfg else {}))
         if exc is not None and ser == "marshal" and isinstance(exc, AttributeError) and "items" in str(exc) and pos == "batch-result":
             ctx.fail("marshal-kwargs-none", "marshal: a batch call fails on the client with %r (dumpsCall is given kwargs=None)" % exc, case)
             obs[pos] = None
@@ -453,8 +495,45 @@ def _e2e_check(ctx, rigs, ser, comp, v):
                 sig = "marshal-list-arg-unconverted"
             ctx.fail(sig, "%s, compression %s: position %s delivers %s but position %s delivers %s"
                      % (ser, "on" if comp else "off", a, repr(obs[a])[:160], b, repr(obs[b])[:160]),
-                     _case(ser, tr, position=a + "/" + b, compression=comp))
+                     _case(ser, tr, position=a + "/" + b, compression=comp, **({"config": cfg} if cfg else {})))
             return
+
+
+def stream_without_proxy_holder(ctx, ser, comp, items, drop_after):
+    """position stream-item, client object lifetimes: the caller keeps the result stream but not the proxy
+    (`for x in Proxy(uri).items(): ...`, or a stream returned from a helper whose local proxy goes out of scope).
+    Every item the remote generator yields must still arrive."""
+    import gc
+    rig = Rig(ser)
+    want = [V.norm(V.tree(x), True) for x in items]
+    case = {"stream_holder_only": True, "serializer": ser, "compression": comp, "drop_after": drop_after,
+            "value_tokens": " ".join(V.tokens(V.tree(items)))}
+    try:
+        with _Config(COMPRESSION=comp, ITER_STREAMING=True):
+            rig.echo.store = items
+            it = rig.proxy.stream()
+            got = []
+            try:
+                for _ in range(drop_after):
+                    got.append(next(it))
+                rig.proxy = None            # the stream is now the only thing the caller holds
+                gc.collect()
+                got.extend(it)
+                out = [V.norm(V.tree(x), True) for x in got]
+            except Exception as x:
+                out = ("err", _kind(x), str(x)[:80])
+            ctx.evaluations += 1
+            ctx.nontriv(("stream-holder", ser, comp, drop_after, repr(want)))
+            if out != want:
+                ctx.fail("stream-items-missing-%s" % ser,
+                         "%s, compression %s: a result stream consumed after its proxy went out of scope (after %d item(s)) delivers %s "
+                         "of the %d items the method yields: %s" % (ser, "on" if comp else "off", drop_after,
+                                                                    len(out) if isinstance(out, list) else "an error instead",
+                                                                    len(want), repr(out)[:200]), case)
+                return False
+    finally:
+        rig.close()
+    return True
 
 
 def replay_case(c):
@@ -466,16 +545,20 @@ def replay_case(c):
     t, _ = V.parse(c["value_tokens"].split(" "))
     v = V.untree(t)
     ctx = common.Ctx("C01", "quick", 0)
-    print("value:", repr(v)[:500], " serializer:", ser)
-    if "position" in c:
+    cfg = c.get("config") or {}
+    print("value:", repr(v)[:500], " serializer:", ser, " config:", cfg)
+    if c.get("stream_holder_only"):
+        stream_without_proxy_holder(ctx, ser, bool(c.get("compression")), v, int(c.get("drop_after", 0)))
+    elif "position" in c:
         rigs = Rigs()
         try:
-            with _Config(COMPRESSION=bool(c.get("compression")), ITER_STREAMING=True):
-                _e2e_check(ctx, rigs, ser, bool(c.get("compression")), v)
+            with _Config(COMPRESSION=bool(c.get("compression")), ITER_STREAMING=True, **cfg):
+                _e2e_check(ctx, rigs, ser, bool(c.get("compression")), v, cfg or None)
         finally:
             rigs.close()
     else:
-        check_value(ctx, ser, v, V.tree(v))
+        with _Config(**cfg):
+            check_value(ctx, ser, v, V.tree(v), cfg or None)
     for f in ctx.failures:
         print("REPRODUCED [%s] %s" % (f["signature"], f["desc"][:500]))
     if not ctx.failures:
